@@ -205,14 +205,19 @@ func parseFrameInfo(d []byte) frameInfo {
 }
 
 // announceAll lets every router announce itself to all its peers (announceRouter).
-func (ms *mesh) announceAll(order []int) {
+// It returns the names of the routers whose announcement crashed.
+func (ms *mesh) announceAll(order []int) (crashed []string) {
 	for _, i := range order {
 		n := ms.nodes[i]
 		_, ls := linksOf(n)
 		for _, l := range ls {
-			_ = n.ro.AnnouncePing.Send(l.to.id.IP)
+			to := l.to.id.IP
+			if pan, _ := recoverPanic(func() { _ = n.ro.AnnouncePing.Send(to) }); pan {
+				crashed = append(crashed, n.name)
+			}
 		}
 	}
+	return crashed
 }
 
 // deliverOne removes the i-th in-flight frame, delivers it and returns the frames its receiver
